@@ -8,6 +8,8 @@ Ops (JSON lists):
   ["rmf", p]            wt.remove([p], keep_files=False, force=True)
   ["ren", p, q]         wt.rename_one(p, q)
   ["mv", p, d]          wt.move([p], d)
+  ["mvn", [p1,..], d]   wt.move([p1,..], d)          (multi-source move)
+  ["sadd", p]           wt.smart_add([abspath(p)])   (only modelled for a regular file whose parent is versioned)
   ["put", p, c]         wt.put_file_bytes_non_atomic(p, CONTENTS[c])
   ["chmod", p, x]       os.chmod(abspath(p), 0o755 if x else 0o644)   (the "mode edit" of the statement, through the OS)
   ["osrm", p]           delete p from disk behind the tree's back (unlink / rmtree)
@@ -15,6 +17,10 @@ Ops (JSON lists):
   ["commit"]  ["revert"]  ["reopen"]
 After every op the driver observes [status, versioned view, iter_changes against the basis tree];
 every 5th op (and on "reopen") the tree object is dropped and WorkingTree.open()ed again first.
+With {"one_lock": true} the whole sequence runs inside ONE wt.lock_write() (released only around a "reopen"
+op), so reads see the tree's cached in-memory inventory; in every mode each observation also cross-checks the
+inventory-backed read APIs (all_versioned_paths, iter_entries_by_dir, list_files, stored_kind,
+iter_child_entries) against the dirstate/index-backed ones (is_versioned, path2id).
 """
 import os
 import shutil
@@ -114,6 +120,46 @@ def _observe(wt, fmt):
     return view, changes, extras
 
 
+def _coherence(wt, ops_paths):
+    """True, or a Tag naming the first disagreement between the read APIs of ONE tree object (same lock)."""
+    try:
+        with wt.lock_read():
+            a = {p for p in wt.all_versioned_paths() if p != ""}
+            b = {p for p, _ie in wt.iter_entries_by_dir() if p != ""}
+            c = {t[0] for t in wt.list_files(include_root=False, recursive=True) if t[1] == "V"}
+            universe = set(a) | b | c | set(ops_paths)
+            for p in list(universe):
+                while "/" in p:
+                    p = p.rsplit("/", 1)[0]
+                    universe.add(p)
+            universe.discard("")
+            d = {p for p in universe if wt.is_versioned(p)}
+            e = {p for p in universe if wt.path2id(p) is not None}
+            on_disk = {p for p in a if os.path.lexists(wt.abspath(p))}      # list_files only lists what is on disk
+            if getattr(wt, "index", None) is not None:
+                # git: directories are implied and an index entry whose disk kind changed is not listed:
+                # only require that everything list_files calls versioned is versioned and on disk
+                on_disk = c & on_disk
+            if c != on_disk:
+                return Tag("incoherent: list_files=%r but the versioned paths on disk are %r" % (sorted(c), sorted(on_disk)))
+            for name, got in (("iter_entries_by_dir", b), ("is_versioned", d), ("path2id", e)):
+                if got != a:
+                    return Tag("incoherent: all_versioned_paths=%r but %s=%r" % (sorted(a), name, sorted(got)))
+            for p in sorted(a):
+                try:
+                    sk = wt.stored_kind(p)
+                except Exception as ex:
+                    return Tag("incoherent: stored_kind(%r) raised %s" % (p, type(ex).__name__))
+                if sk == "directory":
+                    kids = {(p + "/" + ie.name) for ie in wt.iter_child_entries(p)}
+                    want = {q for q in a if q.rsplit("/", 1)[0] == p and "/" in q}
+                    if kids != want:
+                        return Tag("incoherent: iter_child_entries(%r)=%r but all_versioned_paths has %r" % (p, sorted(kids), sorted(want)))
+    except Exception as ex:
+        return Tag("incoherent: read API raised %s" % type(ex).__name__)
+    return True
+
+
 def _disk_listing(base):
     """every path on disk below the tree root except the control directory: [path, kind, bytes, exec]"""
     out = []
@@ -173,6 +219,10 @@ def _apply(wt, base, op):
         wt.rename_one(op[1], op[2])
     elif kind == "mv":
         wt.move([op[1]], op[2])
+    elif kind == "mvn":
+        wt.move(list(op[1]), op[2])
+    elif kind == "sadd":
+        wt.smart_add([os.path.join(base, op[1])])
     elif kind == "put":
         wt.put_file_bytes_non_atomic(op[1], CONTENTS[op[2]])
     elif kind == "chmod":
@@ -201,41 +251,80 @@ def _apply(wt, base, op):
         raise AssertionError(op)
 
 
-def run_ops(fmt, ops, reopen_every=5, trace=None):
+def _ops_paths(ops):
+    out = set()
+    for op in ops:
+        for x in op[1:]:
+            if isinstance(x, str):
+                out.add(x)
+            elif isinstance(x, list):
+                out.update(x)
+        if op[0] in ("mv", "mvn"):
+            for src in ([op[1]] if op[0] == "mv" else op[1]):
+                out.add((op[2] + "/" if op[2] else "") + src.rsplit("/", 1)[-1])
+    out.discard("")
+    return out
+
+
+def run_ops(fmt, ops, reopen_every=5, trace=None, one_lock=False):
     from breezy.workingtree import WorkingTree
     base = _new_tree(fmt)
     out = []
+    paths = _ops_paths(ops)
+    locked = [None]
+
+    def lock(wt):
+        if one_lock:
+            locked[0] = wt.lock_write()
+
+    def unlock():
+        if locked[0] is not None:
+            lk, locked[0] = locked[0], None
+            lk.unlock()
+
     try:
         wt = WorkingTree.open(base)
+        lock(wt)
         for i, op in enumerate(ops):
             try:
                 _apply(wt, base, op)
                 status = Tag("ok")
             except BaseException as e:   # pyo3 panics are BaseException
                 if isinstance(e, (KeyboardInterrupt, SystemExit, AssertionError)) and op[0] not in (
-                        "add", "mkdir", "rmk", "rmf", "ren", "mv", "put", "commit", "revert"):
+                        "add", "mkdir", "rmk", "rmf", "ren", "mv", "mvn", "sadd", "put", "commit", "revert"):
                     raise
                 status = Err(type(e).__name__.lstrip("_"))
                 if trace is not None:
                     trace.append((i, op, repr(e)))
-                if wt.is_locked():       # a failed op must not leave the tree locked
+                if not one_lock and wt.is_locked():       # a failed op must not leave the tree locked
                     raise AssertionError("tree left locked by failing %r" % (op,))
             pre = None
-            if op[0] == "reopen" or (i + 1) % reopen_every == 0:
+            if op[0] == "reopen" or (not one_lock and (i + 1) % reopen_every == 0):
                 pre = _observe(wt, fmt)
+                unlock()
                 del wt
                 wt = WorkingTree.open(base)
+                lock(wt)
             view, changes, extras = _observe(wt, fmt)
             same = True if pre is None else (pre == (view, changes, extras))
+            if same is True:
+                same = _coherence(wt, paths)
+            elif same is False:
+                same = Tag("state differs after WorkingTree.open")
             out.append([status, view, changes, extras, same])
+        unlock()
         return out
     finally:
+        try:
+            unlock()
+        except Exception:
+            pass
         shutil.rmtree(base, ignore_errors=True)
 
 
 def impl(inp):
     try:
-        return run_ops(inp["fmt"], inp["ops"], reopen_every=inp.get("reopen_every", 5))
+        return run_ops(inp["fmt"], inp["ops"], reopen_every=inp.get("reopen_every", 5), one_lock=bool(inp.get("one_lock")))
     except AssertionError:
         raise
     except Exception as e:      # an exception escaping an *observation* (not an op) is a driver error
@@ -295,6 +384,8 @@ def _coq_op(op):
     if k == "rmf": return f"ORemoveForce {_coq_path(op[1])}"
     if k == "ren": return f"ORename {_coq_path(op[1])} {_coq_path(op[2])}"
     if k == "mv": return f"OMove {_coq_path(op[1])} {_coq_path(op[2])}"
+    if k == "mvn": return f"OMoveN [{'; '.join(_coq_path(x) for x in op[1])}] {_coq_path(op[2])}"
+    if k == "sadd": return f"OSmartAdd {_coq_path(op[1])}"
     if k == "put": return f"OPut {_coq_path(op[1])} {coq_bytes(CONTENTS[op[2]])}"
     if k == "chmod": return f"OChmod {_coq_path(op[1])} {'true' if op[2] else 'false'}"
     if k == "osrm": return f"OOsRm {_coq_path(op[1])}"
@@ -334,7 +425,7 @@ def impl_obs(inp, obs):
 
 # ------------------------------------------------------------------ generator
 
-def _gen_ops(rng, fmt, n, names):
+def _gen_ops(rng, fmt, n, names, one_lock=False):
     from props import _c09_mirror as M
     s = M.St(fmt)
     ops = []
@@ -356,7 +447,8 @@ def _gen_ops(rng, fmt, n, names):
         return (d + "/" if d else "") + rng.choice(names)
 
     weights = (["add"] * 5 + ["mkdir"] * 4 + ["rmk"] * 2 + ["rmf"] * 2 + ["ren"] * 5 + ["mv"] * 5 + ["put"] * 6 +
-               ["chmod"] * 2 + ["osrm"] * 2 + ["osmkdir"] + ["commit"] * 3 + ["revert"] * 2 + ["reopen"])
+               ["chmod"] * 2 + ["osrm"] * 2 + ["osmkdir"] + ["commit"] * 3 + ["revert"] * 2 + ["reopen"] +
+               ["mvn"] * 2 + ["sadd"] * 2)
     guard = 0
     while len(ops) < n and guard < 40 * n:
         guard += 1
@@ -371,19 +463,36 @@ def _gen_ops(rng, fmt, n, names):
         elif k == "mv":
             src = rng.choice(dirs()[1:] or [known()]) if rng.random() < 0.4 else known()
             op = [k, src, rng.choice(dirs()) if rng.random() < 0.85 else known()]
+        elif k == "mvn":
+            op = [k, [known() for _ in range(rng.choice([0, 1, 2, 2, 3]))], rng.choice(dirs())]
+        elif k == "sadd":
+            files = [M.S(p) for p, nd in s.disk.items() if nd[0] == "f" and all(len(x) == 1 for x in p)]
+            if not files:
+                continue
+            op = [k, rng.choice(files)]
         elif k == "put":
             op = [k, newchild() if rng.random() < 0.5 else known(), rng.randrange(len(CONTENTS))]
         elif k == "chmod":
             op = [k, known(), rng.random() < 0.6]
         else:
             op = [k]
-        if any(x == "" for x in op[1:2]):
+        if any(x == "" for x in op[1:2]) or (k == "mvn" and "" in op[1]):
             continue
         t = s.copy()
         try:
             e = M.step(t, op)
         except Exception:
             continue
+        if one_lock and fmt == "bzr":
+            # inside one lock two more (reported) defects of the unchanged code become visible; the one-lock
+            # sequences stay clear of them: add below an unversioned directory whose dirblock is still in memory
+            # (C09-bzr-add-under-removed) and a FAILED rename_one of a path that only the basis knows, which
+            # leaves the re-added entry in the cached inventory (C09-bzr-rename-failed-stale-inventory)
+            if e == "NotVersionedError" and k in ("add", "mkdir", "sadd"):
+                continue
+            if k == "ren" and e is not None and M.path2id(s.inv, M.P(op[1])) is None and any(
+                    b[0] == M.P(op[1]) for b in s.basis.values()):
+                continue
         if e == "Unmodelled":
             if rng.random() < 0.9:
                 continue            # a few sequences end in an unmodelled step on purpose
@@ -419,11 +528,22 @@ _CORPUS = [
     ("git", [["mkdir", "a"], ["mkdir", "a/b"], ["ren", "a", "a/b/c"]]),                                                     # C09-git-oserror
     ("git", [["put", "a", 1], ["add", "a"], ["commit"], ["put", "b", 1], ["add", "b"], ["put", "a", 2], ["commit"], ["reopen"]]),  # C09-git-commit-copy
     ("bzr", [["mkdir", "d"], ["put", "d/f", 3], ["add", "d/f"], ["commit"], ["rmf", "d"], ["ren", "d/f", "c"]]),             # C09-bzr-rename-removed-inconsistent
+    ("git", [["osmkdir", "d"], ["put", "d/x", 1], ["add", "d/x"], ["commit"], ["osrm", "d"], ["put", "d", 1], ["revert"]]),     # C09-git-revert-notadir
+]
+# one tree lock around the whole sequence: reads go through the cached in-memory inventory
+_CORPUS_ONE_LOCK = [
+    [["mvn", ["a/e", "d/f"], "a/b"], ["put", "a/e", 1], ["sadd", "a/e"], ["reopen"]],
+    [["mv", "a", "d"], ["put", "a", 2], ["sadd", "a"], ["mv", "d/a/b", ""], ["reopen"], ["commit"], ["reopen"]],
+    [["mvn", ["a/b", "a/e"], "d"], ["mkdir", "a/b"], ["put", "a/b/c", 2], ["add", "a/b/c"], ["rmk", "d/b"], ["reopen"], ["revert"]],
 ]
 
 
 def corpus():
-    return [{"fmt": f, "ops": o} for f, o in _CORPUS]
+    out = [{"fmt": f, "ops": o} for f, o in _CORPUS]
+    for fmt in ("bzr", "git"):
+        for o in _CORPUS_ONE_LOCK:
+            out.append({"fmt": fmt, "ops": _PRELUDE + o, "one_lock": True})
+    return out
 
 
 _PRELUDE = [["mkdir", "a"], ["mkdir", "a/b"], ["put", "a/b/c", 1], ["add", "a/b/c"], ["put", "a/e", 2], ["add", "a/e"],
@@ -482,6 +602,31 @@ def cases(rng, tier):
         for fmt in ("bzr", "git"):
             names = NAMES[: rng.choice([3, 4, 4, 6])]
             yield {"fmt": fmt, "ops": _gen_ops(rng, fmt, rng.randint(8, 25), names)}
+    # (4) the same kinds of sequences inside ONE tree lock (cached in-memory inventory / index stay alive between
+    #     the operations; every observation cross-checks inventory-backed against dirstate/index-backed reads):
+    #     every move / multi-source move / rename / remove group followed by a re-add at the vacated path, and
+    #     random sequences
+    locked = []
+    for x in _PATHS:
+        kindx = "d" if x in ("a", "a/b", "d") else "f"
+        refill = [["osmkdir", x]] if kindx == "d" else [["put", x, 2], ["sadd", x]]
+        for dd in ("", "a", "a/b", "d"):
+            locked.append([["mv", x, dd]] + refill + [["reopen"]])
+        locked.append([["ren", x, "c"]] + refill + [["reopen"], ["revert"]])
+        locked.append([["rmk", x]] + refill + [["reopen"]])
+    for srcs, dd in ((["a/e", "d/f"], "a/b"), (["a/b", "a/e"], "d"), (["a/b/c", "a/e", "d/f"], ""), (["d", "a/e"], "a/b"),
+                     (["a/e", "nonexistent", "d/f"], "a/b"), ([], "d")):
+        locked.append([["mvn", srcs, dd], ["put", "a/e", 1], ["sadd", "a/e"], ["reopen"], ["commit"]])
+    if tier == "quick":
+        locked = locked[::2] + locked[1::8]
+    for fmt in ("bzr", "git"):
+        for m in locked:
+            yield {"fmt": fmt, "ops": _PRELUDE + m, "one_lock": True}
+    n = 12 if tier == "quick" else 120
+    for i in range(n):
+        for fmt in ("bzr", "git"):
+            names = NAMES[: rng.choice([3, 4, 4])]
+            yield {"fmt": fmt, "ops": _gen_ops(rng, fmt, rng.randint(8, 20), names, one_lock=True), "one_lock": True}
 
 
 # ------------------------------------------------------------------ the property itself, on the implementation
@@ -507,8 +652,8 @@ def oracle(inp, obs):
         if isinstance(changes, Err):
             return f"{where}: iter_changes raised {changes}"
         # (3) persisted state read back after re-opening is identical
-        if not same:
-            return f"{where}: state differs after WorkingTree.open"
+        if same is not True:
+            return f"{where}: {same}"
         # (4) valid tree: parents of versioned paths are versioned
         vp = {r[0] for r in view}
         for p in vp:
@@ -572,6 +717,9 @@ def finding_matches(fid, inp, obs, why):
         return fmt == "git" and cut_op == "revert" and "KeyError" not in why and "TransformRenameFailed" not in why
     if fid == "C09-bzr-rename-removed-inconsistent":
         return fmt == "bzr" and cut is None and ops[i][0] == "ren" and e == "InconsistentDelta" and "InconsistentDelta" in why
+    if fid == "C09-bzr-rename-failed-stale-inventory":
+        return (fmt == "bzr" and bool(inp.get("one_lock")) and "incoherent" in why and
+                any(o[0] == "ren" for o in ops[: i + 1]))
     if fid == "C09-git-revert-notadir":
         return fmt == "git" and cut_op == "revert" and cut == i and M.g_notadir(s) and "TransformRenameFailed" in why
     if fid == "C09-git-commit-dirified":
